@@ -129,7 +129,8 @@ def _native_calls(prog, wd, cs):
 def run_fragment(ck, cc, d):
     """Tie of the theorems `lower_correct` (F1) and `lower2_correct` (F2) to this compiler.  For generated functions
     of fragment F1 (`T f(params) { return E; }`) and of fragment F2 (bodies with declarations, assignments, ++/--,
-    if/else, while/do/for, switch/case/default, break/continue, return; gen/c01frag.py: typed tree as expr.c/stmt.c/
+    if/else, while/do/for, switch/case/default, break/continue, return, local arrays with subscripted loads and
+    stores; gen/c01frag.py: typed tree as expr.c/stmt.c/
     decl.c build it), and for generated PROGRAMS of such functions calling each other and themselves (stage D:
     `lower3_correct`; same three comparisons, the IL run is that of the whole module):
       (1) the text `Lower.emitFunc` / `Lower2.emitFunc` gives for the tree is byte-identical to what cproc-qbe emits;
@@ -384,7 +385,10 @@ META = {
              "statements, compound statements, if, if-else, while, do-while, for (any clause missing, declaration in the first), "
              "switch with case/default labels anywhere in its body (fall-through, nested loops and blocks, controlling type int..unsigned "
              "long long, the comparison ladder of casesearch over the AVL tree of tree.c), "
-             "break, continue and return anywhere (no code after a jump statement in the same block unless it is labelled), over F1's expressions on "
+             "break, continue and return anywhere (no code after a jump statement in the same block unless it is labelled), "
+             "local ARRAYS of integers (`T a[n];`, `x = a[i];`, `a[i] = e;` with any index expression: out-of-bounds index or a read of an "
+             "element without value = undefined; the element address is `(unsigned long)i * sizeof *a` added to the one allocation of the "
+             "array, elements laid out in its bytes), over F1's expressions on "
              "parameters and locals (lower2_correct, lower2_correct_in, lower2_correct_exact).  Statement: whenever the C semantics "
              "(Model/CSem.lean, Model/CSem2.lean over Spec/CInt.lean: big-step execution with fuel over a store in which "
              "uninitialised objects are indeterminate; `none` = undefined behaviour) makes the call return v on arguments rho, the IL "
@@ -403,7 +407,8 @@ META = {
              "activations (64 bytes + at most 32 per variable each), the module of ALL emitted functions run from entry returns a "
              "representation of v - nested frames, recursion, the caller's memory untouched by the callee; tied to the compiler by "
              "the same three comparisons on generated programs.  Outside F1/F2/programs (floats, "
-             "pointers, aggregates, bit-fields, goto, calls inside expressions, indirect and variadic calls, non-scalar initialisers, "
+             "pointers other than the implicit one of a subscripted local array, array accesses inside larger expressions, array "
+             "initialisers, aggregates, bit-fields, goto, calls inside expressions, indirect and variadic calls, non-scalar initialisers, "
              "VLAs, unreachable code after a jump) "
              "nothing is proved: there the check is translation validation - every program of the typed generator "
              "gen/cprog.py is compiled by the freshly built cproc-qbe, its real IL is executed under the formal IL semantics and the "
